@@ -45,8 +45,11 @@ CHECKS = {
             "saved flags.", TRUST_CALLS + " " + TRUST_ENGINE, TECH_CALLS + "; " + TECH_ENGINE),
     "C08": ("model_checking", "Every pass of every trace: domains only shrink, every brute-force solution is kept, each "
             "enabled constraint re-executed alone through the real routine neither fails nor prunes, and for exact "
-            "propagators the result equals the greatest common fixpoint computed by the specification.", TRUST_ENGINE,
-            TECH_ENGINE),
+            "propagators the result equals the greatest common fixpoint computed by the specification. spec/Triggers.tla "
+            "checks, for the masks recorded from the real get_triggers_* functions, that no unwatched bound change can "
+            "make a constraint fail or prune (trigger sufficiency); spec/MechTrace.tla replays strict mechanism-level "
+            "traces through NucsMech's operators (drift only).", TRUST_ENGINE,
+            TECH_ENGINE + "; TLC lemma on recorded trigger masks (Triggers.tla)"),
     "C09": ("model_checking", "Every branching decision and every backtrack of every trace is a Branch/Resume step of "
             "NucsAbs: non-empty, disjoint, covering ranges, other domains untouched, moved bounds announced for the "
             "branch taken and recorded for each alternative, frames restored exactly, failure only at the root.",
